@@ -237,8 +237,18 @@ pub fn panic_class(desc: &str) -> String {
 pub const CASE_CPU_LIMIT_S: i64 = 2;
 pub const EXIT_CPU_LIMIT: i32 = 97;
 
+/// in replay mode: message to print and exit code 1 when the CPU limit fires
+static mut REPLAY_HANG_MSG: Option<Vec<u8>> = None;
+
 extern "C" fn on_sigprof(_: libc::c_int) {
-    unsafe { libc::_exit(EXIT_CPU_LIMIT) }
+    unsafe {
+        #[allow(static_mut_refs)]
+        if let Some(m) = REPLAY_HANG_MSG.as_ref() {
+            libc::write(1, m.as_ptr() as *const libc::c_void, m.len());
+            libc::_exit(1)
+        }
+        libc::_exit(EXIT_CPU_LIMIT)
+    }
 }
 
 pub fn arm_cpu_timer(secs: i64) {
@@ -867,6 +877,18 @@ pub fn replay_file(path: &str, quiet: bool, get_engine: &dyn Fn(&str) -> Option<
     };
     let class = doc["class"].as_str().unwrap_or("").to_string();
     let mut stats = Stats::default();
+    if class == "hang" {
+        // the recorded violation is a hang: it reproduces when the CPU limit fires
+        let msg = if quiet {
+            String::new()
+        } else {
+            format!("replay: CPU-time limit of {CASE_CPU_LIMIT_S} s reached\nVIOLATION property={prop} replay={path}\n")
+        };
+        unsafe {
+            REPLAY_HANG_MSG = Some(msg.into_bytes());
+        }
+    }
+    arm_cpu_timer(CASE_CPU_LIMIT_S);
     let vs = if doc["case"].is_null() {
         // regenerate from (seed, index); a crash or hang reproduces by itself
         let k = doc["case_index"].as_u64().unwrap_or(0);
@@ -876,6 +898,7 @@ pub fn replay_file(path: &str, quiet: bool, get_engine: &dyn Fn(&str) -> Option<
     } else {
         engine.replay(&doc["case"], &mut stats)
     };
+    arm_cpu_timer(0);
     let mut hit = false;
     for v in &vs {
         if !quiet {
